@@ -85,6 +85,7 @@ def main(chk):
     chk.validated(sum(ok.values()))
     chk.extra['expressions'] = {'folds': f'2..{maxk}', 'generated': len(recs), 'conforming': ok}
     splitter_actor(chk, rnd, tmp)
+    reducer_function(chk, rnd, tmp)
     # binding self-test (independent of the code under test): an internally consistent but leaky wiring - train and test
     # parts exchanged everywhere - is rejected by the comparison
     rec = next(r for r in recs if r['kind'] == 'eval')
@@ -149,10 +150,51 @@ def splitter_actor(chk, rnd, tmp):
     chk.extra['splitter_actor'] = {'rows': nrows, 'folds': k, 'cross_validators_replayed': len(recs), 'conforming': ok}
 
 
+def reducer_function(chk, rnd, tmp):
+    """Reducer.tla replayed on the real default reducer of the stacked ensemble (ensemble.FullStack(reducer=pandas_mean)):
+    every fold model's prediction for a record is combined with the other folds' predictions for THAT record."""
+    import inspect
+
+    import pandas
+    from forml.pipeline import ensemble
+    reducer = inspect.signature(ensemble.FullStack.__init__).parameters['reducer'].default
+    nrows, nfolds = (3, 2) if chk.quick else (3, 3)
+    cfg_path = os.path.join(tmp, 'rd.cfg')
+    with open(cfg_path, 'w') as fh:
+        fh.write(f'SPECIFICATION Spec\nCONSTANTS NRows = {nrows}\n NFolds = {nfolds}\n Values = {{1, 4}}\nINVARIANT Combined\n'
+                 'INVARIANT Export\nCHECK_DEADLOCK FALSE\n')
+    res = chk.tlc('Reducer', cfg_path, require=['AddRow'], workers=4, timeout=3000)
+    recs = res.json_prints()
+    if not recs:
+        raise tlc.MachineryError('Reducer.tla exported nothing')
+    ok = 0
+    for rec in recs:
+        want = [s / nfolds for s in rec['sums']]
+        try:
+            folds = [pandas.Series(p, index=rec['labels'], name='prediction', dtype=float) for p in rec['preds']]
+            out = reducer(*folds)
+            got = [float(x) for x in (out.iloc[:, 0] if hasattr(out, 'columns') else out)]
+            idx = [int(x) for x in out.index]
+            problem = None
+            if got != want:
+                problem = f'reduced to {got} instead of {want}'
+            elif idx != rec['labels']:
+                problem = f'output records labelled {idx} instead of {rec["labels"]}'
+        except Exception as exc:  # pylint: disable=broad-except
+            problem = f'raised {type(exc).__name__}: {exc}'
+        if problem:
+            chk.fail(f'C12 default stacking reducer on fold predictions {rec["preds"]} of records labelled {rec["labels"]}: {problem} '
+                     '(row i must be the mean of all fold models for record i)', {'kind': 'reducer', 'rec': rec})
+        else:
+            ok += 1
+    chk.validated(ok)
+    chk.extra['reducer_function'] = {'rows': nrows, 'folds': nfolds, 'inputs_replayed': len(recs), 'conforming': ok}
+
+
 def replay(chk, path):
     with open(path) as fh:
         rep = json.load(fh)['replay']
-    if rep.get('kind') == 'splitter':
+    if rep.get('kind') in ('splitter', 'reducer'):
         print(json.dumps(rep))
         return 1
     train, apply, _ = observe({'e': rep['e'], 'kind': rep['kind']}, os.getcwd())
